@@ -28,6 +28,7 @@
 #include <stdlib.h>
 #include <string.h>
 #include "vnacal_new_internal.h"
+#include "vnaproperty_internal.h"
 
 
 /*
@@ -47,7 +48,7 @@ void vnacal_free(vnacal_t *vcp)
 	    _vnacal_calibration_free(vcp->vc_calibration_vector[ci]);
 	}
 	free((void *)vcp->vc_calibration_vector);
-	(void)vnaproperty_delete(&vcp->vc_properties, ".");
+	_vnaproperty_delete_tree(&vcp->vc_properties);
 	assert(vcp->vc_properties == NULL);
 	_vnacal_teardown_parameter_collection(vcp);
 	vcp->vc_magic = -1;
